@@ -300,7 +300,10 @@ class Interp:
         from . import stubs as stubmod
 
         self.ex = ex
+        from . import ctensor
+
         self.stubs = dict(stubmod.DEFAULT)
+        self.stubs.update(ctensor.FUNCS)
         self.stubs.update(stubs or {})
         self.loops = loops or {}  # (qualname, ordinal) -> LoopSpec
         self.contracts = contracts or {}  # qualified function name -> callable(interp, args, kwargs)
@@ -423,6 +426,10 @@ class Interp:
             return self.contracts[name](self, list(args), kwargs)
         if name in self.stubs:
             return self.stubs[name](self, *args, **kwargs)
+        if type(f).__name__ == "ScriptFunction" and f.qualified_name.startswith("__torch__.pydrobert.torch"):
+            # TorchScript-compiled repo function: the verified text is its Python source (assumption: same semantics)
+            modname, _, fn = f.qualified_name[len("__torch__."):].rpartition(".")
+            return self.call_def(source.find_def(modname, fn), importlib.import_module(modname), args, kwargs)
         if isinstance(f, (types.FunctionType,)) and f.__module__ and f.__module__.startswith("pydrobert.torch"):
             target = getattr(f, "__wrapped__", f)
             modname, qn = target.__module__, target.__qualname__
@@ -1348,7 +1355,7 @@ def qualified_name(f):
         return "%s.%s" % (type(f.__self__).__name__, f.__name__)
     if mod is None:
         return str(qn)
-    return "%s.%s" % (mod, qn)
+    return ("%s.%s" % (mod, qn)).replace("torch._VariableFunctionsClass.", "torch.")
 
 
 def str_index(I: Interp, s, idx):
